@@ -363,3 +363,20 @@ class Check:
 
     def _excused(self, b, lines_known):
         return False
+
+
+def pmap(jobs, workers=14):
+    """jobs: list of (cmd, input, timeout); returns list of (rc, out, err) in order"""
+    from concurrent.futures import ThreadPoolExecutor
+    def one(j):
+        cmd, inp, to = j
+        return run(cmd, input=inp, timeout=to)
+    with ThreadPoolExecutor(max_workers=workers) as ex:
+        return list(ex.map(one, jobs))
+
+
+HOOKS = os.path.join(VERIF, 'hooks', 'verif_hooks.h')
+
+
+def hooked_flags(extra=()):
+    return ['-DMI_VERIF_HOOKS="%s"' % HOOKS, '-DVERIF_STATIC_C="%s/src/static.c"' % REPO] + list(extra)
